@@ -429,6 +429,24 @@ def judge_c20(ctx, cfg, inputs, aux=None):
         return [x for x in judge_typed(ctx, cfg, inputs) if x.get('target') == aux['type']]
     return judge_nf(ctx, cfg, inputs) + judge_docs(ctx, cfg, inputs)
 
+MODEL_TARGETS = ['theories/Extract/Extract_apnum.vo']
+MODEL_SOURCES = ['theories/Model/NumberM.v', 'theories/Extract/Driver_apnum.v', 'theories/Extract/Extract_apnum.v', 'theories/Model/Num.v', 'theories/Model/De.v',
+                 'theories/Gen/Tables.v']
+
+def ensure_model(ctx):
+    """the model driver of this property (ocaml/sjdriver_apnum) is extracted from Extract/Extract_apnum.v; (re)build it when it is
+    missing or older than its sources (run_check builds only Extract.vo and Properties/C20.vo)"""
+    import os
+    exe = os.path.join(engine.VERIF, 'ocaml', MODEL)
+    srcs = [os.path.join(engine.COQ, f) for f in MODEL_SOURCES] + [os.path.join(engine.VERIF, 'ocaml', 'driver_apnum.ml')]
+    stale = not os.path.exists(exe) or any(os.path.exists(f) and os.path.getmtime(f) > os.path.getmtime(exe) for f in srcs)
+    if stale and ctx.model_ok:
+        ok, out = engine.build_model(MODEL_TARGETS)
+        if not ok or not os.path.exists(exe):
+            log('C20: building %s failed: %s' % (MODEL, out[-1500:]))
+            ctx.violations.append({'what': 'model-driver-build-failed', 'cfg': ctx.cfgs[0], 'expected': 'ocaml/%s builds from Extract/Extract_apnum.v' % MODEL,
+                                   'actual': out[-600:], 'shrinkable': False})
+
 def run_c20(ctx):
     ctx.rule = ('number literals: special spellings (-0, -0.0, 0e0, 1E+05, trailing zeros, exponents beyond i32, 1000-digit mantissas/exponents), integers around every 2^k (k<=128) and 10^k, '
                 'random literals with 1-40 (every 12th: 100-1000) digit integer/fraction/exponent parts, shortest and 17-digit representations of doubles across all binary exponents, exact '
@@ -437,6 +455,7 @@ def run_c20(ctx):
                 'to_value/from_value (op nd), standing alone and nested in documents (ops pv, rs: canonical-spelling documents must re-serialise to the input minus whitespace; arbitrary documents '
                 'compared with an independent tokenizer/serializer), and as typed targets i8..u128,f32,f64 compared line by line with the build without the feature; implementation == extracted '
                 'Coq model == independent oracle; non-trivial = accepted literals / accepted documents')
+    ensure_model(ctx)
     need = sorted(set(NOFEATURE[c] for c in ctx.cfgs))
     res = engine.build_harness(need)
     for c, (ok, out) in res.items():
@@ -474,4 +493,5 @@ AP_TB = ['ASSUMED (modelled, not verified; tied by op `na` on arbitrary texts): 
          're-validated with Number::from_str where the code does so; tied by ops nd / rs',
          'oracle side: CPython float() (correctly rounded), json tokenizer, big ints']
 
-register('C20', cfgs={'quick': ['ap'], 'thorough': ['ap', 'frap']}, run=run_c20, judge=judge_c20, extended=run_c20, trusted_base=AP_TB)
+register('C20', cfgs={'quick': ['ap'], 'thorough': ['ap', 'frap']}, run=run_c20, judge=judge_c20, extended=run_c20, trusted_base=AP_TB,
+         model_targets=MODEL_TARGETS)
